@@ -478,6 +478,10 @@ func checkC02(e *Engine, r *Report) {
 		r.Check(lit["GasLimit"] != nil && sliceFrom(lit["GasLimit"]).HasCall(CallSpec{EV + "/types", "", "BlockGasLimit"}) && sliceFrom(lit["GasLimit"]).HasValue(ctxP), "NewEVM › GasLimit", e.Pos(ne.Pos()), "BlockGasLimit(ctx)", "GASLIMIT does not come from the consensus parameters")
 		r.Check(lit["GetHash"] != nil && sliceFrom(lit["GetHash"]).HasCall(CallSpec{pkgEvmKeeper, "Keeper", "GetHashFn"}), "NewEVM › GetHash", e.Pos(ne.Pos()), "k.GetHashFn(ctx)", "BLOCKHASH does not come from the keeper's hash function")
 	})
+
+	r.Rule("R10", "KEY-INJECTIVE", "contract storage and code are keyed injectively: StateKey(address, slot) = prefix ‖ address ‖ slot, AddressStoragePrefix(address) = prefix ‖ address (go-ethereum keeps one storage trie per account: no two (account, slot) pairs may share a record)", 2, func() {
+		e.checkKeyBuilders(r, pkgEvmTypes, []string{"AddressStoragePrefix", "StateKey"}, "two different (account, slot) pairs share one storage record: SSTORE in one contract changes what SLOAD returns in another")
+	})
 }
 
 func abbreviate(s string) string {
